@@ -59,8 +59,9 @@ func CheckCall(sc *Scenario, v *CallView, rs RuleSet, em int) []Violation {
 				}
 				rd := sc.Rule(x.Rule)
 				if rd != nil && x.FirePoint < len(rd.Secs) && MarkerFault(rd.Secs[x.FirePoint].Kind) {
-					if m := Marker(c.Idx, int64(x.Rule), int64(x.FirePoint)); !strings.Contains(errS, m) {
-						add("wrong-failure-returned", "", fmt.Sprintf("%s: first failure is %s but the returned error does not carry it: %.120q", c, m, errS))
+					// "that failure is returned": the error carries the failure's own text, or at least names the rule
+					if m := Marker(c.Idx, int64(x.Rule), int64(x.FirePoint)); !strings.Contains(errS, m) && !strings.Contains(errS, "\""+strconv.Itoa(x.Rule)+"\"") {
+						add("wrong-failure-returned", "", fmt.Sprintf("%s: the first failure is %s of rule %d but the returned error carries neither: %.120q", c, m, x.Rule, errS))
 					}
 				}
 				break
